@@ -17,16 +17,16 @@ def render(v, base):
     return s
 
 
-def build(ctx):
+def build(ctx, alt=False):
     R = core.REPO
     flags = ["-fno-builtin", "-include", "stdint.h", "-include", os.path.join(core.HARNESS, "rename_libc.h"), "-include", os.path.join(R, "igris/util/errno.h")]
     objs = []
     for i, src in enumerate(["stdlib/strtol.c", "stdlib/strtoul.c", "stdlib/strtoll.c", "stdlib/strtoull.c", "inttypes/strtoimax.c", "inttypes/strtoumax.c",
                              "stdlib/atol.c", "stdlib/qsort.c", "stdlib/bsearch.c", "stdlib/rand.c"]):
-        o = os.path.join(ctx.work, "libc%d.o" % i)
-        ctx.sh(["gcc", "-std=c11", "-D_POSIX_C_SOURCE=200809L", "-g", "-O1", "-fsanitize=address", "-fno-omit-frame-pointer", "-w", "-I" + R] + flags + ["-c", os.path.join(R, "compat/libc", src), "-o", o], timeout=300)
+        o = os.path.join(ctx.work, "libc%s%d.o" % ("_alt" if alt else "", i))
+        ctx.sh(["gcc", "-std=c11", "-D_POSIX_C_SOURCE=200809L", "-g"] + core.opt_flags(alt) + ["-fsanitize=address", "-fno-omit-frame-pointer", "-w", "-I" + R] + flags + ["-c", os.path.join(R, "compat/libc", src), "-o", o], timeout=300)
         objs.append(o)
-    return ctx.cxx("drv_stdlib", ["drv_stdlib.cpp"], objs=objs)
+    return ctx.cxx("drv_stdlib" + ("_alt" if alt else ""), ["drv_stdlib.cpp"], objs=objs, alt=alt)
 
 
 def texts(rng, thorough):
@@ -124,6 +124,11 @@ def check(ctx):
             big.append("StrtoBig %s %d %d %s %d" % (fn, ch, k, fmt([ord(c) for c in tail]), 10))
     tb = ctx.drive(drv, big, "stdlib_big", timeout=1500, par=1)
     bad = ctx.judge("StdlibTrace", [t, tb], shards=16)
+    # the second build configuration (size-optimised, plain char unsigned) on part of the executions
+    ta = ctx.drive(build(ctx, alt=True), core.subset_executions(script, ctx.seed, 1.0 if ctx.thorough else 0.34), "stdlib_alt")
+    bada = ctx.judge("StdlibTrace", [ta], shards=16)
+    for b in bada: b["driver"] = "drv_stdlib@alt"
+    bad += bada
     for b in bad: b["driver"] = "drv_stdlib"
     ctx.report(bad)
     ctx.assumptions += [
@@ -137,7 +142,7 @@ def check(ctx):
 
 def replay(ctx, path):
     d = json.load(open(path))
-    drv = build(ctx)
+    drv = build(ctx, alt=core.is_alt(d))
     e = d["event"]
     if e.get("e") == "Fault":
         return core.replay_fault(ctx, d, drv, "StdlibTrace", path)
